@@ -687,6 +687,29 @@ def oracle(case, rng=None):
     obs["direct"] = r
     obs["td_captured"] = captured[-1] if captured else None
 
+    # the same OBJECT evaluated again with ONE argument changed (a sampler moving along one coordinate: same distances,
+    # another kinematic scaling; same scaling, another systematic error): the value is that of a fresh object
+    if stream not in ("indefinite", "singular") and t in tuple(KIN_TYPES) + ("DdtDdGaussian", "DsDdsGaussian") and r[0] == "ok":
+        variants = []
+        if kw.get("kin_scaling") is not None:
+            ks = np.atleast_1d(np.array(kw["kin_scaling"], dtype=float))
+            variants.append(("kin_scaling", dict(kw, kin_scaling=ks * np.linspace(0.8, 1.3, len(ks)))))
+        else:
+            n_ks = len(case["ctor"].get("sigma_v_measurement", [])) if t in KIN_TYPES else 1
+            if n_ks:
+                variants.append(("kin_scaling", dict(kw, kin_scaling=np.linspace(0.8, 1.3, n_ks))))
+        if t in KIN_TYPES:
+            sv = kw.get("sigma_v_sys_error")
+            variants.append(("sigma_v_sys_error", dict(kw, sigma_v_sys_error=(0.07 if not sv else sv * 1.5))))
+        for what, kw2 in variants:
+            r_re = call(o.log_likelihood, *pa, **kw2)
+            r_fr = call(obj(flag).log_likelihood, *pa, **kw2)
+            ok_same = (r_re[0] == r_fr[0]) and (r_re[0] == "err" and r_re[1] == r_fr[1] or r_re[0] == "ok" and close(r_re[1], r_fr[1], 1e-12))
+            if not ok_same:
+                fails.append(("%s:reused-object-differs-after-changing-%s" % (t, what),
+                              "the same object evaluated again with another %s (all else equal) gives %r, a fresh object gives %r"
+                              % (what, r_re, r_fr)))
+
     # dispatch with junk in the unconsumed arguments
     junk = junk_args(rng, case)
     case_nooff = case
